@@ -139,6 +139,7 @@ impl Node {
         let mut builder = match &cfg.db {
             DbKind::Temp => SharedBuilder::with_temp_db().consensus(gi.consensus.clone()),
             DbKind::Path { root, freezer } => {
+                std::fs::create_dir_all(root).expect("create node root dir");
                 let db_config = DBConfig {
                     path: root.join("db"),
                     ..Default::default()
